@@ -353,7 +353,7 @@ def gen_recipes(ctx):
     R.append([dict(E, out="a.cool", widths=[[7]], chunks=[[[0, 0, 4]]])])
     R.append([dict(E, out="a.cool", symm=False, chunks=[[[i, j, 1 + i + j] for i in range(4) for j in range(4)]])])
     # --- singles
-    for _ in range(45 * mul):
+    for _ in range(40 * mul):
         R.append([G.gen_create(rng, "a.cool")])
     for _ in range(10 * mul):
         R.append([G.gen_create(rng, "a.cool", group=rng.choice(["x", "x/y", "resolutions/5"]), big=True)])
@@ -397,7 +397,10 @@ def gen_recipes(ctx):
     kinds = list(G.COUNT_KINDS)
     for ki, kind in enumerate(kinds):
         wide = kind not in ("int8", "uint8")
-        for inp in ("frame", "dict", "ordered", "unordered"):
+        forms = ("frame", "dict", "ordered", "unordered")
+        # float kinds through every input form; integer kinds through two forms each, rotating, so that every
+        # form meets at least four integer dtypes (thorough: all four)
+        for inp in (forms if (kind.startswith("float") or thorough) else (forms[ki % 4], forms[(ki + 2) % 4])):
             R.append([G.retype(rng, G.gen_create(rng, "t.cool", kind=inp, shape=rng.choice(["sparse", "dense", "gaprows", "row"])), kind)])
         # extra value column next to a typed count column
         st = G.retype(rng, G.gen_create(rng, "t.cool", kind=rng.choice(["frame", "ordered", "unordered"]), shape="sparse"), kind)
